@@ -21,8 +21,12 @@
   BDF: coefficients and Newton loop are not translated; stiff-check only.
   * Radau control model (`Proofs/RadauLemmas.lean`, tied by X-radau): `RadauCtl.pass_singular` — SingularMatrix is reported only by
     the sixth failure in a row; an accepted step resets the counter.
+  * `FdJac.fdPerturbation_ge`, `FdJac.fdPerturbation_pos`, `FdJac.entry_affine` (Proofs/FdJacLemmas.lean): the default
+    finite-difference Jacobian (increment and quotient translated from src/ivp.rs, model tied by X-fdjac) uses an increment
+    of at least eps·|y_j| and at least eps, and returns the matrix of an affine right-hand side exactly.
 -/
 import IvpModel.Proofs.RadauLemmas
+import IvpModel.Proofs.FdJacLemmas
 import IvpModel.Gen.Radau
 import IvpModel.Model.RadauTab
 import Mathlib.Algebra.Order.Field.Basic
